@@ -132,6 +132,8 @@ def judge(c, rec, Mismatch, case):
         worst = None
         micro = False
         cnoise = gw.crossing_noise(c.lats[s], c.lons[s], c.lats[s + 1], c.lons[s + 1])
+        if cnoise >= 1.0:
+            rec.cls('segment:crossing-place-undetermined-by-the-coordinates')
         chord_shares = gw.sample_segment.chord_shares
         for cell in set(got) | set(shares):
             g, w = got.get(cell, 0.0), shares.get(cell, 0.0)
